@@ -130,7 +130,20 @@ def g_angle(r):
         return r.uniform(-math.pi, math.pi)
     if k < 0.7:
         return r.randint(-50, 50) / 16.0
-    return r.choice([0.0, -0.0, math.pi, -math.pi, 1e-6, math.pi / 2, 3, -3, 0.05])
+    return r.choice([0.0, -0.0, math.pi, -math.pi, 1e-6, math.pi / 2, 3, -3, 0.05, TWO_PI, -TWO_PI, 6.25, -4.5])
+
+
+def g_state_angle(r, p=0.2):
+    """An EXACT angle-valued state attribute: states accept any float, so besides the normalised range also unwrapped yaw
+    angles beyond +-2 pi (accumulated heading), the range ends themselves and their float neighbours."""
+    if r.random() >= p:
+        return g_angle(r)
+    k = 0.8 + 0.2 * r.random()
+    if k < 0.90:
+        return r.choice([6.5, 7.0, 9.25, 13.0, -(TWO_PI + 0.5), -7.75, 100.0, -1000.25, 3 * math.pi, -5 * math.pi, 2 ** 20 + 0.125])
+    if k < 0.95:
+        return r.choice([1, -1]) * (TWO_PI + r.uniform(0.0, 40.0))
+    return r.choice([TWO_PI, -TWO_PI, math.nextafter(TWO_PI, 10.0), math.nextafter(-TWO_PI, -10.0), math.nextafter(TWO_PI, 0.0)])
 
 
 def g_angle_interval(r):
@@ -193,7 +206,7 @@ def g_shape(r, depth=0, allow_group=True, basic_only=False):
 def g_feoi(r, attr):
     """float exact or interval"""
     if attr == "orientation":
-        return g_angle(r) if r.random() < 0.7 else g_angle_interval(r)
+        return g_state_angle(r) if r.random() < 0.7 else g_angle_interval(r)
     return g_real(r) if r.random() < 0.7 else g_interval(r)
 
 
@@ -215,7 +228,7 @@ def g_init_state(r, full=False, t=None, region_ok=True):
     if full:
         st["pos"] = g_point(r)
         for a in ["orientation", "velocity", "yaw_rate", "slip_angle"]:
-            st["a"][a] = g_angle(r) if a == "orientation" else g_real(r)
+            st["a"][a] = g_state_angle(r) if a == "orientation" else g_real(r)
         if r.random() < 0.4:
             st["a"]["acceleration"] = g_real(r)
         if r.random() < 0.15:
@@ -224,7 +237,8 @@ def g_init_state(r, full=False, t=None, region_ok=True):
             st["a"]["velocity"] = g_interval(r)
         return st
     st["pos"] = g_point(r) if (r.random() < 0.8 or not region_ok) else g_shape(r, basic_only=True)
-    st["a"]["orientation"] = g_feoi(r, "orientation")
+    # obstacle initial states go through the occupancy geometry, which refuses some unwrapped angles: fewer of them here
+    st["a"]["orientation"] = g_state_angle(r, 0.07) if r.random() < 0.7 else g_angle_interval(r)
     for a in ["velocity", "acceleration", "yaw_rate", "slip_angle"]:
         if r.random() < 0.6:
             st["a"][a] = g_feoi(r, a)
@@ -263,7 +277,7 @@ def g_traj_states(r, t0, n):
             if a in interval_attrs:
                 st["a"][a] = g_angle_interval(r) if a == "orientation" else g_interval(r)
             else:
-                st["a"][a] = g_angle(r) if a == "orientation" else g_real(r)
+                st["a"][a] = g_state_angle(r) if a == "orientation" else g_real(r)
         out.append(st)
     return out
 
@@ -355,7 +369,7 @@ def gen_spec(r, size="normal"):
             geo = {"ref": r.choice(["+proj=utm +zone=32 +ellps=WGS84", "", "EPSG:4326"]), "x": None, "y": None, "rot": None,
                    "scaling": None}
             if r.random() < 0.6:
-                geo.update({"x": g_real(r), "y": g_real(r), "rot": g_angle(r), "scaling": r.choice([1, 1.0, 0.5, g_pos_real(r)])})
+                geo.update({"x": g_real(r), "y": g_real(r), "rot": g_state_angle(r), "scaling": r.choice([1, 1.0, 0.5, g_pos_real(r)])})
             loc["geo"] = geo
         if r.random() < 0.6:
             env = {"time": None, "time_of_day": None, "weather": None, "underground": None}
